@@ -28,10 +28,11 @@ CLAIMS = {
  'C07': dict(
    text=GENERIC + "Proved: the stack invariant (<= max_items items, each <= max_item_size) holds on every outcome of every run, with the state at the point of failure for failed runs; push is all-or-nothing and a limit overrun is a ScriptExecutionError leaving the state untouched; "
         "reads past the end, calls/evaluations at the limit and loops past the iteration budget are ScriptExecutionErrors; a successful run consumed its whole tape. "
+        "TERMINATION (Props/C07Term.lean, Lemmas/Term.lean, Lemmas/Counts.lean): for every op table, all limits, every script or script list and every cache the run ENDS - there is a fuel from which on the outcome is fixed and is not the out-of-fuel marker (tape_terminates, script_terminates, auth_terminates), by a lexicographic measure (call limit minus a lower bound of the call counter; length of the frame's tape at creation - block bodies are proper substrings; remaining tape; op-term structure; loop budget) together with partial-correctness invariants of the heap of call counters (counts_main: a run started at counter >= c never lowers a counter to c or below; function ids stay valid). So no loop, recursion or nesting runs forever in the model, and the fuel parameter is only a definitional device. "
         "Tie: instrumented runs of the real VM (recording deque/Stack/Tape, wrapped dispatch) are judged at every step against the limits and the primitive contracts the theorems rest on (no deque mutation bypassing put, no drops, no backward reads, "
         "CALL/EVAL nesting and LOOP iterations within the limit, limit errors are ScriptExecutionError), tracemalloc bound per instruction, plus the differential run on resource-hungry programs.",
-   note="Python's recursion limit, C stack and real memory are runtime behaviour the model cannot exhibit (known finding K3 is demonstrated by replay); termination (enough fuel always exists) is not yet proved for the heap-resident call counters - listed as OPEN in Props/C07.lean.",
-   technique="Lean 4 proof of limit invariants generic over the op table + instrumented-trace oracle on the implementation + differential correspondence",
+   note="Python's recursion limit, C stack and real memory are runtime behaviour the model cannot exhibit (known finding K3 is demonstrated by replay); the termination theorem allows the run to end in the model's own substring-guard outcome (Err.guard, no counterpart in the implementation); that this outcome is unreachable for the 92 real instructions is not proved (the correspondence would show it as a disagreement).",
+   technique="Lean 4 proof of limit invariants and of termination, generic over the op table + instrumented-trace oracle on the implementation + differential correspondence",
    design="§5 C07"),
  'C08': dict(
    text=GENERIC + "Proved: after any run (script or authorization list, successful or failed, state taken at the point of failure) every string-keyed cache entry is exactly what it was - none added, changed or removed; hence sigfields and timestamp are unchanged. "
